@@ -75,6 +75,37 @@ def prelude(data, hist):
             if hist.violations:
                 return
         hist.flags.add('c20_hotfix_queues')
+    if data.draw(st.integers(0, 2), label='stale_cache') == 0:
+        # a destination moves after Bert-E last refreshed its mirror cache,
+        # then an admin job on (or right above) it runs while one of its
+        # commands that talk to the remote fails: the job must not act on
+        # the stale picture of the repository
+        import re
+        from vf.checks.c08 import NET_RE
+        dests_ = sorted(n for n in hist.world.heads()
+                        if n.startswith('development/'))
+        if dests_:
+            b = dests_[data.draw(st.integers(0, len(dests_) - 1),
+                                 label='sc_b')]
+            # (a first job fills the mirror cache)
+            hist.apply({'op': 'commit_event', 'sel': {'ref': b}})
+            hist.apply({'op': 'move_dst', 'branch': b})
+            m = re.match(r'development/(\d+)\.(\d+)$', dests_[-1])
+            jobs_ = [{'op': 'admin', 'kind': 'delete_branch',
+                      'args': {'branch': b}}]
+            if m:
+                hist.apply({'op': 'move_dst', 'branch': dests_[-1]})
+                jobs_.append({'op': 'admin', 'kind': 'create_branch',
+                              'args': {'branch': 'development/%s.%d' % (
+                                  m.group(1), int(m.group(2)) + 1)}})
+            for js in jobs_:
+                info = hist.dry_run(js)
+                for ci in [ci for ci, c in enumerate(
+                        info['cmds'] if info else []) if NET_RE.match(c)]:
+                    hist.apply({'op': 'cmdfail', 'job': js, 'cmd': ci})
+                    if hist.violations:
+                        return
+            hist.flags.add('c20_stale_cache_probe')
     if data.draw(st.integers(0, 3), label='cycle') == 0:
         # create - delete (archives) - create again: the archived case of
         # the statement is only reachable through this cycle
@@ -108,7 +139,7 @@ def shard(ctx, i, acc):
     explore(ctx, i, acc, monitors, n, steps=(10, 30), weights=WEIGHTS,
             params_kw={'stab_bias': True, 'modes': ('queue', 'queue', 'queue',
                                                    'skipqueue', 'noqueue')}, nontrivial=nontrivial,
-            classes=classes, prelude=prelude)
+            classes=classes, prelude=prelude, inject=True)
 
 
 def run(ctx):
@@ -118,7 +149,7 @@ def run(ctx):
 def replay(ctx, case, acc):
     sc = Scratch()
     try:
-        viols, _ = replay_case(sc, case, monitors())
+        viols, _ = replay_case(sc, case, monitors(), inject=True)
         for msg, sig in viols:
             acc.violation(msg, case, sig)
     finally:
